@@ -22,6 +22,37 @@ pub enum FaultKind {
     Zero,
 }
 
+/// how the injected io::Error is constructed (`Fault::arg` of a hard fault):
+/// 0 = kind + message payload, 1 = bare kind (no payload), 2 = raw OS error, 3 = an io::Error
+/// that wraps one of the library's own PreflateError values
+pub const FLAVOURS: [&str; 4] = ["message", "bare_kind", "raw_os_error", "wrapped_preflate_error"];
+
+pub fn make_error(kind_idx: u8, flavour: u32, side: &str) -> io::Error {
+    let (kind, name) = HARD_KINDS[kind_idx as usize % HARD_KINDS.len()];
+    match flavour % 4 {
+        0 => io::Error::new(kind, format!("simulated {} error {}", side, name)),
+        1 => io::Error::from(kind),
+        2 => io::Error::from_raw_os_error(match kind {
+            ErrorKind::BrokenPipe => 32,       // EPIPE
+            ErrorKind::TimedOut => 110,        // ETIMEDOUT
+            ErrorKind::WouldBlock => 11,       // EAGAIN
+            ErrorKind::ConnectionReset => 104, // ECONNRESET
+            ErrorKind::PermissionDenied => 13, // EACCES
+            ErrorKind::InvalidData => 28,      // ENOSPC
+            _ => 5,                            // EIO
+        }),
+        _ => {
+            // a genuine PreflateError produced by the library, wrapped the way the library wraps it
+            // (0xff = final block of reserved type 3: rejected by the block reader)
+            let r = std::panic::catch_unwind(|| preflate_rs::decompress_deflate_stream(&[0xff, 0xff, 0xff, 0xff], false, 0));
+            match r {
+                Ok(Err(e)) => io::Error::from(e),
+                _ => io::Error::new(kind, "simulated error"),
+            }
+        }
+    }
+}
+
 pub const HARD_KINDS: [(ErrorKind, &str); 8] = [
     (ErrorKind::Other, "Other"),
     (ErrorKind::UnexpectedEof, "UnexpectedEof"),
@@ -94,6 +125,7 @@ impl IoPlan {
                                 .set("side", J::str(if f.side == Side::Src { "src" } else { "dst" }))
                                 .set("kind", J::str(k))
                                 .set("error", J::str(kn))
+                                .set("flavour", J::str(if matches!(f.kind, FaultKind::Hard(_)) { FLAVOURS[f.arg as usize % 4] } else { "" }))
                                 .set("at", J::u(f.at))
                                 .set("arg", J::u(f.arg as u64))
                         })
@@ -320,8 +352,7 @@ impl<'a> Read for SimReader<'a> {
                     self.st.hard_fired = true;
                     sh.trace.hard_returned += 1;
                     sh.trace.digest.u64(0xE2_00 | k as u64);
-                    let (kind, name) = HARD_KINDS[k as usize % HARD_KINDS.len()];
-                    return Err(io::Error::new(kind, format!("simulated source error {}", name)));
+                    return Err(make_error(k, f.arg, "source"));
                 }
                 FaultKind::Interrupted => {
                     let n = f.arg.clamp(1, 3);
@@ -408,8 +439,7 @@ impl Write for SimWriter {
                     self.st.hard_fired = true;
                     sh.trace.hard_returned += 1;
                     sh.trace.digest.u64(0xE3_00 | k as u64);
-                    let (kind, name) = HARD_KINDS[k as usize % HARD_KINDS.len()];
-                    return Err(io::Error::new(kind, format!("simulated destination error {}", name)));
+                    return Err(make_error(k, f.arg, "destination"));
                 }
                 FaultKind::Interrupted => {
                     let n = f.arg.clamp(1, 3);
